@@ -2,6 +2,8 @@
 from pyvc.dsl import *
 from contracts import notification as _n   # noqa: F401  (Notification model, invariants)
 from pyvc.dsl import REG
+default_scope(["Notification", "Interrupt.parked_or_scheduled", "Lock", "Interrupt.live_lock_wakeup_is_owner", "Condition.not_a_lock_notification", "Queue"])
+
 
 # ghost back pointer: the lock a notification serves (None for all other notifications); set once
 REG.models["Notification"].ghost["lock"] = OPT(REF("Lock"))
